@@ -1,5 +1,6 @@
 SPECIFICATION Spec
 CONSTANTS
+  Isas = {"x64"}
   MaxBlocks = 2
   Templates = {"o1", "o23", "jmp", "jmp1", "jcc", "call", "ret", "ret1", "ijmp", "icall", "d3"}
   Layouts = {"none"}
